@@ -43,6 +43,7 @@ ASSUMPTIONS = [
     "transient=False (transient arms are outside the listed properties)",
 ]
 TECHNIQUE = "global value numbering of both twin kernels into guarded rational normal forms, decision-table comparison with numeric witness filter; backward slicing / path conditions for the matrix cache"
+EXPLANATION += (' ' + '(R7.4, the analysis of C06 R6.3 applied to both engines) the numpy and the numba group sum order the indices and every value array by the same permutation before the segment sums; an engine that sorts only the keys pairs sums with the wrong nodes.')
 
 
 def _h(*parts):
